@@ -135,20 +135,17 @@ def build(run: Run):
                "analysis.AnalysisContext.shorten_code", "analysis.Analyzer.analyze", "analysis.check_safety",
                "analysis.AnalysisResults.__init__", "analysis.AnalysisResults.severity", "analysis.AnalysisResults.to_dict",
                "analysis.AnalysisResults.detailed_results")
-    for k in analysis_contracts(run):
-        run.verify(k)
+    run.verify_batch(analysis_contracts(run))
     run.verify(*[f for f in RUNTIME_FNS if f.startswith("tracing.")])
     eng.back_edge_hook = trace_back_edge
     run.verify("tracing.Trace.run", extra_post=trace_exit)
     eng.back_edge_hook = None
     # every opcode run against the generic frame: it writes the interpreter's own state and node-owned lists only — never the Pickled, its
     # opcode objects, or anything an earlier answer was computed from
-    for key in frame_contracts(run):
-        run.verify(key)
+    run.verify_batch(frame_contracts(run))
     # (b) type obligations on every AST construction, under the shape contracts (well-formed interpreter state)
     install_type_hooks(run)
-    for cls, key in opcode_contracts(run):
-        run.verify(key)
+    run.verify_batch([key for cls, key in opcode_contracts(run)])
     run.assumptions += [
         "history quantifier: each query is a function of the opcode sequence plus a frame that excludes the opcode list, the opcode objects and "
         "every already-built AST (except line numbers and in-place list growth during the *same* interpretation); hence any order/repetition of "
